@@ -180,6 +180,12 @@ Prods == [
              <<"table", "Type">>, <<"roarray", "[", "Num", "]", "Type">>, <<"ptr", "foo">>, <<"nptr", "foo">>,
              <<"foo">>, <<"bar">>, <<"baz">>, <<"base", ".", "range_ii_u32">> },
   NumT |-> { <<n>> : n \in NumTypes },
+  \* struct-typed fields: references to the structs of the context through type decorators (the order of the C struct
+  \* definitions and the cycle check both come from one topological sort over by-value fields)
+  SType |-> { <<"SBase">>, <<"SDec">>, <<"array", "[", "ANum", "]", "SType">>, <<"roarray", "[", "ANum", "]", "SType">> },
+  SBase |-> { <<"foo">>, <<"bar">>, <<"baz">> },
+  SDec  |-> { <<"ptr", "SBase">>, <<"nptr", "SBase">>, <<"slice", "SBase">>, <<"table", "SBase">> },
+  ANum |-> { <<"2">>, <<"0">>, <<"256">> },
   \* ----------------------------------------------------------- declarations
   File |-> { <<>>, <<"Decl", ";", "File">> },
   Decl |-> {
@@ -223,7 +229,7 @@ DeclNT == {"File", "Decl", "Vis", "UsePath", "CName", "ConstVal", "ConstList", "
            "Impl", "Fields", "Field", "FId", "Extra", "FName", "Effect", "OutType", "FuncAsserts", "FBody",
            "VarDecls", "LVar"}
 StmtNT == {"Body", "Stmts", "Block", "Stmt", "ElsePart", "LoopAsserts", "OpEq", "ItN", "LU32", "RetVal", "YieldVal"}
-TypeNT == {"Type", "NumT"}
+TypeNT == {"Type", "NumT", "SType", "SBase", "SDec", "ANum"}
 ExprNT == NT \ (DeclNT \cup StmtNT \cup TypeNT)
 
 ASSUME DeclNT \cup StmtNT \cup TypeNT \subseteq NT
@@ -248,7 +254,7 @@ MinLen == [
      Stmt |-> 1, Body |-> 0, Stmts |-> 0, Block |-> 2, ElsePart |-> 0, LoopAsserts |-> 0, OpEq |-> 1, ItN |-> 1,
      LU32 |-> 1, RetVal |-> 1, YieldVal |-> 1, EU32 |-> 1, OU32 |-> 1, BinOp |-> 1, Num |-> 1, EU8 |-> 1,
      OU8 |-> 1, EU64 |-> 1, EU64P |-> 9, EBool |-> 1, OBool |-> 1, Cmp |-> 1, ESlice |-> 1, EStatus |-> 1,
-     Type |-> 1, NumT |-> 1, File |-> 0, Decl |-> 2, Vis |-> 1, UsePath |-> 1, CName |-> 1, ConstVal |-> 1,
+     Type |-> 1, NumT |-> 1, SType |-> 1, SBase |-> 1, SDec |-> 2, ANum |-> 1, File |-> 0, Decl |-> 2, Vis |-> 1, UsePath |-> 1, CName |-> 1, ConstVal |-> 1,
      ConstList |-> 0, StatusLit |-> 1, SName |-> 1, Classy |-> 0, Impl |-> 0, Fields |-> 0, Field |-> 3,
      FId |-> 1, Extra |-> 0, FName |-> 1, Effect |-> 0, OutType |-> 0, FuncAsserts |-> 0, FBody |-> 2,
      VarDecls |-> 0, LVar |-> 1 ]
